@@ -243,6 +243,8 @@ class ArithHooks(Hooks):
             key = (opname, a_ref, b_ref, samp if isinstance(samp, str) else float(samp), k.get('method', 'linear'), k.get('fill_value', 0))
             self._history_checks(it, i, fn, key, rm, ma, mb, exp['ambiguous'])
         elif spec_a or spec_b:
+            if tag.get('nd_left'):
+                it.probe('ndarray_times_spectrum')
             it.probe('check:scalar')
             it.probe('scalar_op')
             if np.ndim(b if spec_a else a) == 0 and (b if spec_a else a) in (0, 1):
@@ -327,7 +329,7 @@ class SpectrumArithScenario(Scenario):
                    'scipy.interpolate.interp1d is the trusted interpolation reference; two-element fill values are not generated for binary '
                    'operators (the statement speaks of "the fill value")']
     must_hit = ['pair:nm-nm', 'pair:nm-um', 'pair:angstrom-um', 'pair:m-nm', 'disjoint_ranges', 'sampling:left', 'sampling:right', 'sampling:float',
-                'op_repeated_after_to', 'commuted_pair', 'scalar_op', 'op_repeated_after_assignment', 'identity_scalar']
+                'op_repeated_after_to', 'commuted_pair', 'scalar_op', 'op_repeated_after_assignment', 'identity_scalar', 'ndarray_times_spectrum']
     probe_names = must_hit + ['coldwarm_audit', 'ambiguous_grid', 'pair:um-um', 'pair:angstrom-nm', 'pair:m-um', 'pair:angstrom-m']
 
     # ---------------------------------------------------------------- generation
@@ -374,6 +376,7 @@ class SpectrumArithScenario(Scenario):
         prog = []
         cnt = [0]
         mine = []       # results of this caller: (id, unit)
+        mine_spec = []  # (id, number of samples) of results whose length is known: scalar / vector ops keep the grid
 
         def nid(tag='r'):
             cnt[0] += 1
@@ -434,6 +437,14 @@ class SpectrumArithScenario(Scenario):
                         if isinstance(k2.get('sampling'), float):
                             t2['left_unit'] = b['unit']
                         E(e['fn'], [e['a'][1], e['a'][0]], k2, t=t2)
+            elif r < 0.44 and mine_spec:
+                # equal-length vector times a spectrum that earlier arithmetic produced, vector on either side
+                rid, n_r = rng.choice(mine_spec)
+                vec = {'$nd': [round(rng.uniform(0.5, 2), 2) for _ in range(n_r)]}
+                if rng.random() < 0.5:
+                    E('s*', [vec, '@' + rid], t={'expect': 'ok', 'nd_left': True})
+                else:
+                    E('s*', ['@' + rid, vec], t={'expect': 'ok'})
             elif r < 0.5:
                 s = rng.choice(pool)
                 opname = rng.choice(list(OPS))
@@ -442,8 +453,13 @@ class SpectrumArithScenario(Scenario):
                 if kind == 'scalar':
                     E(rng.choice([sym, 'Spectrum.' + opname]), ['@' + s['id'], rng.choice([2, 0.5, 3.0, 1.5, 0, 1, 1.0, 0.0])], t={'expect': 'ok'})
                     mine.append(prog[-1]['id'])
+                    mine_spec.append((prog[-1]['id'], s['n']))
                 elif kind == 'vector':
-                    E(rng.choice([sym, 'Spectrum.' + opname]), ['@' + s['id'], [round(rng.uniform(0.5, 2), 2) for _ in range(s['n'])]], t={'expect': 'ok'})
+                    v = [round(rng.uniform(0.5, 2), 2) for _ in range(s['n'])]
+                    if opname == 'multiply' and rng.random() < 0.4:
+                        E('s*', [{'$nd': v}, '@' + s['id']], t={'expect': 'ok', 'nd_left': True})
+                    else:
+                        E(rng.choice([sym, 'Spectrum.' + opname]), ['@' + s['id'], rng.choice([v, {'$nd': v}])], t={'expect': 'ok'})
                 elif kind == 'rscalar':
                     E('s*', [rng.choice([2, 0.25, 1, 1.0]), '@' + s['id']], t={'expect': 'ok'})
                     mine.append(prog[-1]['id'])
@@ -480,6 +496,7 @@ class SpectrumArithScenario(Scenario):
                     prog.append(d)
             elif r < 0.78 and mine:
                 rid = rng.choice(mine)
+                mine_spec[:] = [x for x in mine_spec if x[0] != rid]
                 what = rng.choice(['to', 'crop', 'trim'])
                 if what == 'to':
                     prog.append({'c': c, 'fn': 'Spectrum.to', 'a': ['@' + rid, rng.choice(['nm', 'um', 'm'])], 'id': nid('ed'), 'inplace': ['@' + rid]})
@@ -549,6 +566,9 @@ class SpectrumArithScenario(Scenario):
             E('s*', ['@S0', 2.0])
             E('s/', ['@S0', [1, 2, 3, 4, 5, 6, 7]])
             E('s*', [3, '@S0'])
+            E('s*', ['@S0', 2.0])
+            E('s*', [{'$nd': [1, 2, 3, 4, 5, 6, 7]}, '@p%d' % n[0]], t={'expect': 'ok', 'nd_left': True})
+            E('s*', [{'$nd': [1, 2, 3, 4, 5, 6, 7]}, '@S0'], t={'expect': 'ok', 'nd_left': True})
             E('s+', ['@S0', 0])
             E('s*', ['@S0', 1.0])
             E('s*', [1, '@S0'])
@@ -562,6 +582,45 @@ class SpectrumArithScenario(Scenario):
             E('Spectrum.add', ['@S0', '@S1'], {'sampling': 'right'}, t={'expect': 'ok', 'dup': True})
             runs.append({'scenario': self.name, 'world': world, 'events': events, 'run_index': -100 + j, 'seed': 0})
         return runs
+
+    @staticmethod
+    def _serial_compare(L, it, solo, hooks, ev, tainted):
+        """True = agrees, None = comparison not defined (taints descendants), (what, why) = differs."""
+        S = L.radiometry.Spectrum
+        if ev['id'] in hooks.touched or any(r in tainted for r in it.event_refs(ev)):
+            return None
+        x, y = it.store.get(ev['id']), solo.store.get(ev['id'])
+        if any(isinstance(z, S) and np.size(z.wave) > 200000 for z in (x, y)):
+            return None         # reported by the pointwise oracle; never copy such a grid
+        if (x is None) != (y is None):
+            return ('outcome', 'succeeded in one execution and failed in the other')
+        if x is None:
+            return True
+        if any(e2.get('inplace') and ('@' + ev['id']) in e2['inplace'] for e2 in it.run_events):
+            return None
+        opname = op_of(ev['fn'])
+        if isinstance(x, S) and isinstance(y, S) and wellformed_obj(x)[0] and wellformed_obj(y)[0]:
+            mx, my = MS.of(x), MS.of(y)
+            both = bool(opname) and all(isinstance(r, str) for r in ev['a'])
+            if both and len(mx.wave) != len(my.wave):
+                return None     # grid length may legitimately depend on rounding in another unit
+            ends = []
+            if both:
+                ops_ = [solo.store.get(r[1:]) for r in ev['a']]
+                if not all(isinstance(o, S) and wellformed_obj(o)[0] for o in ops_):
+                    return None
+                mo = [MS.of(o) for o in ops_]
+                if not label_meaningful(opname, mo[0].vunit, mo[1].vunit, ev.get('k', {}).get('fill_value', 0)):
+                    return None     # the result's value-unit label is not defined; see label_meaningful
+                ends = ends_m(*mo)
+            elif opname and mx.vunit in DENSITY and opname not in ('multiply', 'divide'):
+                return None         # density (+,-,**) a bare number: the number is in the current units, not unit-free
+            ok, why = same_physical(mx, my, ends=ends)
+            return True if ok else ('value', why)
+        if isinstance(x, np.ndarray) and isinstance(y, np.ndarray):
+            ok = x.shape == y.shape and np.allclose(x, y, rtol=1e-9, atol=1e-300, equal_nan=True)
+            return True if ok else ('value', 'arrays differ')
+        return True
 
     # ---------------------------------------------------------------- execution
     def execute(self, L, run):
@@ -579,6 +638,7 @@ class SpectrumArithScenario(Scenario):
             return out
 
         it.step = step
+        it.run_events = run['events']
         it.run(run['events'])
         extra = []
         # ---- C13.serial: every non-owner caller's results are what they are solo (numerically, as physical spectra)
@@ -592,48 +652,17 @@ class SpectrumArithScenario(Scenario):
                 solo = Interp(L, run['world'], self.fns, None)
                 solo.run(solo_events(run['events'], c))
                 it.probe('check:serial')
+                tainted = set()     # results whose comparison is not defined, and everything computed from them
                 for ev in run['events']:
-                    if ev.get('c') != c or not ev.get('id') or ev['id'] in hooks.touched:
+                    if ev.get('c') != c or not ev.get('id'):
                         continue
-                    x, y = it.store.get(ev['id']), solo.store.get(ev['id'])
-                    if any(isinstance(z, S) and np.size(z.wave) > 200000 for z in (x, y)):
-                        continue        # reported by the pointwise oracle; never copy such a grid
-                    if (x is None) != (y is None):
-                        extra.append(Violation('C13.serial', {'fn': ev['fn'], 'what': 'outcome'},
-                                               'caller %d: %s succeeded in one execution and failed in the other' % (c, ev['fn'])).to_json())
-                        break
-                    if x is None:
-                        continue
-                    if any(e2.get('inplace') and ('@' + ev['id']) in e2['inplace'] for e2 in run['events']):
-                        continue
-                    if isinstance(x, S) and isinstance(y, S) and wellformed_obj(x)[0] and wellformed_obj(y)[0]:
-                        amb = False
-                        if op_of(ev['fn']) and all(isinstance(r, str) for r in ev['a']):
-                            amb = True   # grid length may legitimately depend on rounding in another unit: compare only if same size
-                        mx, my = MS.of(x), MS.of(y)
-                        if amb and len(mx.wave) != len(my.wave):
-                            continue
-                        if op_of(ev['fn']) and not amb and mx.vunit in DENSITY and op_of(ev['fn']) not in ('multiply', 'divide'):
-                            continue    # density (+,-,**) a bare number: the number is in the current units, not unit-free
-                        ends = []
-                        if amb:
-                            ops_ = [solo.store.get(r[1:]) for r in ev['a']]
-                            if not all(isinstance(o, S) and wellformed_obj(o)[0] for o in ops_):
-                                continue
-                            mo = [MS.of(o) for o in ops_]
-                            if not label_meaningful(op_of(ev['fn']), mo[0].vunit, mo[1].vunit, ev.get('k', {}).get('fill_value', 0)):
-                                continue        # the result's value-unit label is not defined; see label_meaningful
-                            ends = ends_m(*mo)
-                        ok, why = same_physical(mx, my, ends=ends)
-                    elif isinstance(x, np.ndarray):
-                        ok = x.shape == y.shape and np.allclose(x, y, rtol=1e-9, atol=1e-300, equal_nan=True)
-                        why = 'arrays differ'
-                    else:
-                        continue
-                    if not ok:
-                        extra.append(Violation('C13.serial', {'fn': ev['fn'], 'what': 'value'},
+                    verdict = self._serial_compare(L, it, solo, hooks, ev, tainted)
+                    if verdict is None:
+                        tainted.add(ev['id'])
+                    elif verdict is not True:
+                        extra.append(Violation('C13.serial', {'fn': ev['fn'], 'what': verdict[0]},
                                                'caller %d: result of %s differs from its solo run although only the representation of shared '
-                                               'spectra changed in between: %s' % (c, ev['fn'], why)).to_json())
+                                               'spectra changed in between: %s' % (c, ev['fn'], verdict[1])).to_json())
                         break
         states = set()
         for (i, c, fn, brief) in it.history:
